@@ -1,8 +1,390 @@
-fn main() {
-    let args = vcommon::Args::parse();
-    if args.prop == "NONE" {
+//! Monitor for the pull side of `dfir_pipes`:
+//!   C11 — pull combinators == iterator adapters under every Pending placement (+ fused / size_hint /
+//!         progress rules);
+//!   C13 — symmetric hash join == relational join (incremental, new-tick and multi-tick paths).
+
+mod c11;
+mod c13;
+mod drive;
+mod script;
+
+use std::cell::RefCell;
+
+use vcommon::{Args, Reporter, Rng, Tier, Value, catch, hash_of, json};
+
+use crate::c11::{Entry, Inner, catalogue};
+use crate::drive::Case;
+use crate::script::{Ev, items_of, pend_between_items, pends_of};
+
+// ---------------------------------------------------------------------------------------------
+// enumeration helpers
+
+/// All ways to put <= k indistinguishable tokens into `gaps` slots (counts per slot).
+pub fn placements(gaps: usize, k: usize) -> Vec<Vec<u8>> {
+    fn rec(gaps: usize, left: usize, cur: &mut Vec<u8>, out: &mut Vec<Vec<u8>>) {
+        if cur.len() == gaps {
+            out.push(cur.clone());
+            return;
+        }
+        for n in 0..=left {
+            cur.push(n as u8);
+            rec(gaps, left - n, cur, out);
+            cur.pop();
+        }
+    }
+    let mut out = vec![];
+    if gaps == 0 {
+        return vec![vec![]];
+    }
+    rec(gaps, k, &mut vec![], &mut out);
+    out
+}
+
+fn weave(items: &[i32], place: &[u8]) -> Vec<Ev> {
+    let mut s = vec![];
+    for (g, &n) in place.iter().enumerate() {
+        for _ in 0..n {
+            s.push(Ev::Pend);
+        }
+        if g < items.len() {
+            s.push(Ev::It(items[g]));
+        }
+    }
+    s
+}
+
+/// Every item sequence of length <= max_len over {0,1,2} x every placement of <= k Pendings.
+pub fn all_scripts(max_len: usize, k: usize) -> Vec<Vec<Ev>> {
+    let mut out = vec![];
+    for n in 0..=max_len {
+        let pl = placements(n + 1, k);
+        for code in 0..3usize.pow(n as u32) {
+            let mut c = code;
+            let items: Vec<i32> = (0..n)
+                .map(|_| {
+                    let x = (c % 3) as i32;
+                    c /= 3;
+                    x
+                })
+                .collect();
+            for p in &pl {
+                out.push(weave(&items, p));
+            }
+        }
+    }
+    out
+}
+
+/// Every placement of <= k Pendings for every length <= max_len; item values rotate with `salt`.
+fn pattern_scripts(max_len: usize, k: usize, salt: usize) -> Vec<Vec<Ev>> {
+    let mut out = vec![];
+    let mut ctr = salt;
+    for n in 0..=max_len {
+        for p in placements(n + 1, k) {
+            let items: Vec<i32> = (0..n)
+                .map(|j| {
+                    ctr = ctr.wrapping_mul(31).wrapping_add(j + 7);
+                    ((ctr >> 3) % 3) as i32
+                })
+                .collect();
+            out.push(weave(&items, &p));
+        }
+    }
+    out
+}
+
+fn sched_from_counts(counts: &[u8]) -> Vec<u32> {
+    let mut v = vec![];
+    for (o, &n) in counts.iter().enumerate() {
+        for _ in 0..n {
+            v.push(o as u32);
+        }
+    }
+    v
+}
+
+fn random_script(rng: &mut Rng, max_items: usize, density_pct: u32) -> Vec<Ev> {
+    let n = rng.below(max_items + 1);
+    let mut s = vec![];
+    for _ in 0..n {
+        while rng.chance(density_pct, 100) && s.len() < 4 * max_items {
+            s.push(Ev::Pend);
+        }
+        s.push(Ev::It(rng.below(3) as i32));
+    }
+    while rng.chance(density_pct, 100) && s.len() < 4 * max_items + 4 {
+        s.push(Ev::Pend);
+    }
+    s
+}
+
+fn strip_pends(s: &[Ev]) -> Vec<Ev> {
+    s.iter().copied().filter(|e| matches!(e, Ev::It(_))).collect()
+}
+
+// ---------------------------------------------------------------------------------------------
+// per-entry statistics (kept out of the Reporter's string-keyed counters in the hot loop)
+
+#[derive(Default, Clone)]
+struct Stat {
+    runs: u64,
+    nontrivial: u64,
+    panics: u64,
+}
+
+thread_local! {
+    static STATS: RefCell<Vec<Stat>> = const { RefCell::new(Vec::new()) };
+}
+
+const DISTINCT_CAP: usize = 3_000_000;
+
+fn exec(cat: &[Entry], ei: usize, c: &Case, rep: &mut Reporter) {
+    let e = &cat[ei];
+    debug_assert_eq!(e.name, c.fam);
+    let nontrivial = (0..e.arity as usize).any(|i| pend_between_items(c.scripts[i]));
+    STATS.with(|s| {
+        let mut s = s.borrow_mut();
+        s[ei].runs += 1;
+        if nontrivial {
+            s[ei].nontrivial += 1;
+        }
+    });
+    if nontrivial {
+        if rep.distinct_count() < DISTINCT_CAP {
+            rep.nontrivial(hash_of(&(c.fam, c.scripts, c.kinds, c.p1, c.p2, c.inner)));
+        }
+        rep.sample(|| c.to_json());
+    }
+    if let Err(msg) = catch(|| (e.run)(c, rep)) {
+        STATS.with(|s| s.borrow_mut()[ei].panics += 1);
+        rep.eval();
+        let kind = if msg.starts_with("harness:") { "harness-panic" } else { "panic" };
+        rep.violation(&format!("C11|{}|{kind}", c.fam), &format!("panicked: {msg}"), c.to_json());
+    }
+}
+
+fn kinds_ok(k: [u8; 2], c: &Case, arity: u8) -> bool {
+    (0..arity as usize).all(|i| k[i] != 2 || pends_of(c.scripts[i]) == 0)
+}
+
+// ---------------------------------------------------------------------------------------------
+// C11 workloads
+
+fn run_c11(args: &Args) {
+    let mut rep = Reporter::new("C11", args.seed);
+    let cat = catalogue();
+    STATS.with(|s| *s.borrow_mut() = vec![Stat::default(); cat.len()]);
+    if let Some(case) = args.replay_case() {
+        replay_c11(&cat, &case, &mut rep);
+        rep.finish("replay", false);
         return;
     }
-    eprintln!("not implemented yet");
-    std::process::exit(3);
+    let mut rng = args.rng();
+    let miri = args.tier == Tier::Miri;
+    let thorough = args.tier == Tier::Thorough;
+    let k = args.budget(2, 3, 1);
+    let max_len = args.budget(4, 4, 2);
+    let scripts = all_scripts(max_len, k);
+    let scripts2 = if thorough { all_scripts(max_len, 2) } else { vec![] };
+    let empty: &[Ev] = &[];
+    let mut idx = 0usize;
+
+    // ---- (1) single-input base combinators: every script x every parameter x every inner placement
+    for (ei, e) in cat.iter().enumerate() {
+        if e.composition || e.arity != 1 {
+            continue;
+        }
+        if miri {
+            continue;
+        }
+        for s in &scripts {
+            for &p1 in e.p1 {
+                let probe = Case { fam: e.name, scripts: [s, empty], kinds: e.kinds[0], p1, p2: 0, inner: &[], mode: 0 };
+                let scheds: Vec<Vec<u32>> = if e.inner == Inner::Sched {
+                    placements((e.m)(&probe), k).iter().map(|c| sched_from_counts(c)).collect()
+                } else {
+                    vec![vec![]]
+                };
+                for inner in &scheds {
+                    for &kinds in e.kinds {
+                        idx += 1;
+                        let c = Case { inner, kinds, ..probe };
+                        if !kinds_ok(kinds, &c, 1) {
+                            continue;
+                        }
+                        exec(&cat, ei, &c, &mut rep);
+                        // the same with a loose (but truthful) upstream size hint
+                        exec(&cat, ei, &Case { mode: 1 + (idx % 3) as u8, ..c }, &mut rep);
+                    }
+                }
+            }
+        }
+    }
+
+    // ---- (2) two-input base combinators: product of scripts
+    for (ei, e) in cat.iter().enumerate() {
+        if e.composition || e.arity != 2 || miri {
+            continue;
+        }
+        for (li, l) in scripts.iter().enumerate() {
+            // quick: right side = every placement (values rotate); thorough: additionally every k<=2 script
+            let pats = pattern_scripts(max_len, k, li);
+            let rights = pats.iter().chain(scripts2.iter());
+            for r in rights {
+                for &p1 in e.p1 {
+                    idx += 1;
+                    let base = Case { fam: e.name, scripts: [l, r], kinds: e.kinds[0], p1, p2: 0, inner: &[], mode: 0 };
+                    for (j, &kinds) in e.kinds.iter().enumerate() {
+                        let primary = j < 2;
+                        if !primary && (idx % (e.kinds.len() - 2)) != j - 2 {
+                            continue;
+                        }
+                        let c = Case { kinds, mode: if primary { 0 } else { 1 + (idx % 3) as u8 }, ..base };
+                        if !kinds_ok(kinds, &c, 2) {
+                            continue;
+                        }
+                        exec(&cat, ei, &c, &mut rep);
+                    }
+                }
+            }
+        }
+    }
+
+    // ---- (3) depth-2 compositions: every script, sampled parameters / second input / inner schedule
+    let draws = args.budget(2, 5, 0);
+    for (ei, e) in cat.iter().enumerate() {
+        if !e.composition || miri {
+            continue;
+        }
+        let uses_inner = e.name.contains("fm_");
+        for s in &scripts {
+            for _ in 0..draws {
+                idx += 1;
+                let r: &[Ev] = if e.arity == 2 { &scripts[rng.below(scripts.len())] } else { empty };
+                let inner: Vec<u32> = if uses_inner { (0..rng.below(3)).map(|_| rng.below(2 * s.len() + 3) as u32).collect() } else { vec![] };
+                let kinds = e.kinds[idx % e.kinds.len()];
+                let c = Case { fam: e.name, scripts: [s, r], kinds, p1: rng.below(8) as i64, p2: rng.below(8) as i64, inner: &inner, mode: (idx % 4) as u8 };
+                if !kinds_ok(kinds, &c, e.arity) {
+                    continue;
+                }
+                exec(&cat, ei, &c, &mut rep);
+            }
+        }
+    }
+
+    // ---- (4) random long runs over the whole catalogue
+    let n_random = args.budget(20_000, 1_000_000, 0);
+    for _ in 0..n_random {
+        let ei = rng.below(cat.len());
+        random_case(&cat, ei, &mut rng, 30, &mut rep);
+    }
+
+    // ---- Miri: a handful of small random cases per catalogue entry, sharded by entry
+    if miri {
+        for ei in 0..cat.len() {
+            if !args.in_shard(ei) {
+                continue;
+            }
+            let n = if cat[ei].composition { 1 } else { 3 };
+            for _ in 0..n {
+                random_case(&cat, ei, &mut rng.fork(ei as u64), 4, &mut rep);
+            }
+        }
+    }
+
+    // ---- coverage and minimum observation
+    let stats = STATS.with(|s| s.borrow().clone());
+    let mut per_family = serde_map();
+    let mut never_run = vec![];
+    let mut thin = vec![];
+    let mut total_nontrivial = 0u64;
+    for (ei, e) in cat.iter().enumerate() {
+        let st = &stats[ei];
+        total_nontrivial += st.nontrivial;
+        per_family.insert(e.name.to_string(), json!({"runs": st.runs, "nontrivial": st.nontrivial, "panics": st.panics}));
+        if st.runs == 0 {
+            never_run.push(e.name);
+        }
+        let needs_pend = !matches!(e.name, "iter" | "once/empty/repeat" | "from_fn");
+        if !miri && needs_pend && st.nontrivial < 50 {
+            thin.push(e.name);
+        }
+    }
+    rep.extra("per_family", Value::Object(per_family));
+    rep.extra("catalogue_size", json!(cat.len()));
+    rep.extra("nontrivial_runs_total", json!(total_nontrivial));
+    rep.extra("fused_postend_checks", json!(drive::fused_checks()));
+    if !miri {
+        rep.require(never_run.is_empty(), &format!("catalogue entries never run: {never_run:?}"));
+        rep.require(thin.is_empty(), &format!("entries with < 50 non-trivial runs: {thin:?}"));
+        rep.require(drive::fused_checks() > 10_000, "fewer than 10000 post-Ended (fused) observations");
+    }
+    rep.finish(
+        "every catalogue entry (base combinators + depth-2 compositions) is run on every item sequence of length <=4 over {0,1,2} x every placement of <=2 (quick) / <=3 (thorough) Pendings per input (two-input: product of placements, item values of the second input rotating; thorough also the full product with all <=2-pending scripts), x every parameter (8 predicates / counts 0..5), x every placement of <=k Pendings among inner futures/streams/downstream answers, inputs fused / non-fused (poisoned after end) / sync iter, exact and loose truthful size hints; then random runs (<=30 items, Pending density 0-60%). Non-trivial = a Pending lies strictly between two Ready of the same input; distinct = distinct (family, scripts, kinds, params, inner schedule), counted up to a cap of 3e6 (total in extra.nontrivial_runs_total)",
+        !miri,
+    );
+}
+
+fn serde_map() -> vcommon::serde_json::Map<String, Value> {
+    vcommon::serde_json::Map::new()
+}
+
+fn random_case(cat: &[Entry], ei: usize, rng: &mut Rng, max_items: usize, rep: &mut Reporter) {
+    let e = &cat[ei];
+    let dens = rng.below(61) as u32;
+    let mut l = random_script(rng, max_items, dens);
+    let dens_r = rng.below(61) as u32;
+    let mut r = if e.arity == 2 { random_script(rng, max_items, dens_r) } else { vec![] };
+    let kinds = *rng.choose(e.kinds);
+    if kinds[0] == 2 {
+        l = strip_pends(&l);
+    }
+    if kinds[1] == 2 {
+        r = strip_pends(&r);
+    }
+    let p1 = if e.composition { rng.below(8) as i64 } else { *rng.choose(e.p1) };
+    let mut c = Case { fam: e.name, scripts: [&l, &r], kinds, p1, p2: rng.below(8) as i64, inner: &[], mode: rng.below(4) as u8 };
+    let m = if e.composition { 2 * l.len() + 3 } else { (e.m)(&c) };
+    let inner: Vec<u32> = if e.inner == Inner::Sched && m > 0 { (0..rng.below(7)).map(|_| rng.below(m) as u32).collect() } else { vec![] };
+    c.inner = &inner;
+    exec(cat, ei, &c, rep);
+}
+
+fn parse_script(v: &Value) -> Vec<Ev> {
+    v.as_array().map(|a| a.iter().map(|x| match x.as_i64() { Some(i) => Ev::It(i as i32), None => Ev::Pend }).collect()).unwrap_or_default()
+}
+
+fn replay_c11(cat: &[Entry], case: &Value, rep: &mut Reporter) {
+    let fam = case["family"].as_str().unwrap_or("").to_string();
+    let Some(ei) = cat.iter().position(|e| e.name == fam) else {
+        eprintln!("unknown family {fam}");
+        std::process::exit(3);
+    };
+    let s0 = parse_script(&case["scripts"][0]);
+    let s1 = parse_script(&case["scripts"][1]);
+    let inner: Vec<u32> = case["inner"].as_array().map(|a| a.iter().map(|x| x.as_u64().unwrap() as u32).collect()).unwrap_or_default();
+    let c = Case {
+        fam: cat[ei].name,
+        scripts: [&s0, &s1],
+        kinds: [case["kinds"][0].as_u64().unwrap_or(1) as u8, case["kinds"][1].as_u64().unwrap_or(1) as u8],
+        p1: case["p1"].as_i64().unwrap_or(0),
+        p2: case["p2"].as_i64().unwrap_or(0),
+        inner: &inner,
+        mode: case["mode"].as_u64().unwrap_or(0) as u8,
+    };
+    let _ = items_of(&s0);
+    exec(cat, ei, &c, rep);
+}
+
+fn main() {
+    let args = Args::parse();
+    match args.prop.as_str() {
+        "NONE" => {}
+        "C11" => run_c11(&args),
+        "C13" => c13::run(&args),
+        p => {
+            eprintln!("mon_pull serves C11 and C13, not {p}");
+            std::process::exit(3);
+        }
+    }
 }
